@@ -1,8 +1,9 @@
 """C16 — OPF results are feasible operating points (DESIGN §5, Opf.tla / OpfDef.tla / OpfInst.tla / OpfObs.tla).
 
 TLC enumerates the abstract configurations of the OPF template (which elements are controllable, which limit levels are
-tight, AC / DC, solver options, dcline none / lossless / lossy, cost profile) and derives what is required of the
-result.  Every selected configuration is instantiated from Inst(cfg) -- serialised by TLC (OpfInst.tla), so the numbers
+tight, AC / DC, solver options, the sequence of dclines -- none / one / several, each forward or reverse, lossless or
+lossy --, transformer phase shift, net.sn_mva, an out-of-service element that keeps its cost row, cost profile) and
+derives what is required of the result and the stratum of the configuration (Opf.tla req.stratum).  Every selected configuration is instantiated from Inst(cfg) -- serialised by TLC (OpfInst.tla), so the numbers
 of the template live in the spec only --, run through runopp / rundcopp, the dispatch is replayed as a plain power flow,
 and OpfObs.tla decides the clauses on the fixed-point observations.  This module also carries the driver shared with C17.
 """
@@ -27,9 +28,9 @@ _BASE = {}
 
 
 # ---- instantiation: Inst(cfg) -> pandapower net ------------------------------------------------------------------
-def base_net(mesh, dcline):
-    """Topology of OpfDef.tla; every limit / set point / cost is written per case by build_net()."""
-    key = (bool(mesh), bool(dcline))
+def base_net(mesh):
+    """Topology of OpfDef.tla; every limit / set point / cost and the dclines are written per case by build_net()."""
+    key = bool(mesh)
     if key in _BASE:
         return _BASE[key]
     import pandapower as pp
@@ -47,61 +48,58 @@ def base_net(mesh, dcline):
     pp.create_gen(net, b[2], p_mw=0.0, vm_pu=1.0, controllable=True)
     pp.create_sgen(net, b[3], p_mw=0.0, q_mvar=0.0, controllable=False)
     pp.create_storage(net, b[2], p_mw=0.0, max_e_mwh=100.0, q_mvar=0.0, controllable=False)
-    if dcline:
-        pp.create_dcline(net, b[1], b[3], p_mw=0.0, loss_percent=0.0, loss_mw=0.0, vm_from_pu=1.0, vm_to_pu=1.0,
-                         max_p_mw=1.0, min_q_from_mvar=-1.0, max_q_from_mvar=1.0, min_q_to_mvar=-1.0, max_q_to_mvar=1.0)
     _BASE[key] = net
     return net
 
 
-ROW = {"ext_grid": 0, "gen": 0, "sgen": 0, "load": 1, "storage": 0, "dcline": 0}
+ROW = {"ext_grid": 0, "gen": 0, "sgen": 0, "load": 1, "storage": 0}          # dcline cost row: inst["dcl_cost_row"]
+ET_TAB = ["ext_grid", "gen", "sgen", "load", "storage"]
 
 
 def build_net(inst):
     import pandapower as pp
-    net = copy.deepcopy(base_net(inst["mesh"], inst["dcl"] != 0))
+    net = copy.deepcopy(base_net(inst["mesh"]))
+    net.sn_mva = float(inst["sn_mva"])
+    net.trafo["shift_degree"] = float(inst["shift_degree"])
     net.bus["min_vm_pu"] = inst["vmin"] / 1e6
     net.bus["max_vm_pu"] = inst["vmax"] / 1e6
     net.trafo["max_loading_percent"] = float(inst["maxload"]["T"])
     ml = [inst["maxload"]["A"], inst["maxload"]["B"]] + ([inst["maxload"]["C"]] if inst["mesh"] else [])
     net.line["max_loading_percent"] = [float(x) for x in ml]
     net.load.loc[0, ["p_mw", "q_mvar"]] = [float(inst["basep"]), float(inst["baseq"])]
-    for et in ET:
+    for ln in inst["lines"]:
+        pp.create_dcline(net, ln["from"], ln["to"], p_mw=float(ln["pset"]), loss_percent=float(ln["loss_percent"]),
+                         loss_mw=ln["loss_kw"] / 1000.0, vm_from_pu=ln["vmf"] / 1e6, vm_to_pu=ln["vmt"] / 1e6,
+                         max_p_mw=float(ln["pmax"]), min_q_from_mvar=float(ln["qmin"]), max_q_from_mvar=float(ln["qmax"]),
+                         min_q_to_mvar=float(ln["qmin"]), max_q_to_mvar=float(ln["qmax"]))
+    for et in ET_TAB:
         e = inst["el"][et]
-        if not e["present"]:
-            continue
         r = ROW[et]
         tab = net[et]
-        if et == "dcline":
-            tab.loc[r, "p_mw"] = float(e["pset"])
-            tab.loc[r, "max_p_mw"] = float(e["pmax"])
-            for side in ("from", "to"):
-                tab.loc[r, "min_q_%s_mvar" % side] = float(e["qmin"])
-                tab.loc[r, "max_q_%s_mvar" % side] = float(e["qmax"])
-            tab.loc[r, "loss_percent"] = float(inst["loss_percent"])
-            tab.loc[r, "loss_mw"] = inst["loss_kw"] / 1000.0
-            continue
         for col, k in (("min_p_mw", "pmin"), ("max_p_mw", "pmax"), ("min_q_mvar", "qmin"), ("max_q_mvar", "qmax")):
             if col not in tab.columns:
                 tab[col] = float("nan")
             tab.loc[r, col] = float(e[k])
         tab.loc[r, "controllable"] = bool(e["ctrl"])
+        tab.loc[r, "in_service"] = bool(e["ins"])
         if et in ("ext_grid", "gen"):
             tab.loc[r, "vm_pu"] = e["vset"] / 1e6
         if et != "ext_grid":
             tab.loc[r, "p_mw"] = float(e["pset"])
         if et in ("sgen", "load", "storage"):
             tab.loc[r, "q_mvar"] = float(e["qset"])
-    for et in ("ext_grid", "gen", "sgen", "load", "storage"):
+    for et in ET_TAB:
         net[et]["controllable"] = net[et]["controllable"].astype(bool)
-    for et in ET:
+        net[et]["in_service"] = net[et]["in_service"].astype(bool)
+    for et in inst["order"]:
         c = inst["cost"][et]
+        row = inst["dcl_cost_row"] if et == "dcline" else ROW[et]
         if c["kind"] == "poly":
-            pp.create_poly_cost(net, ROW[et], et, cp1_eur_per_mw=float(c["c1"]), cp0_eur=float(c["c0"]),
+            pp.create_poly_cost(net, row, et, cp1_eur_per_mw=float(c["c1"]), cp0_eur=float(c["c0"]),
                                 cp2_eur_per_mw2=float(c["c2"]), cq1_eur_per_mvar=float(c["q1"]), cq0_eur=float(c["q0"]),
                                 cq2_eur_per_mvar2=float(c["q2"]))
         elif c["kind"] == "pwl":
-            pp.create_pwl_cost(net, ROW[et], et, [[float(x) for x in p] for p in c["pts"]])
+            pp.create_pwl_cost(net, row, et, [[float(x) for x in p] for p in c["pts"]])
     return net
 
 
@@ -109,31 +107,35 @@ def readback(net, inst):
     """What the element tables of the built net say (integers) -- compared with Inst(cfg) by TLC (Harness_Instantiated)."""
     ri = lambda x: int(round(float(x)))
     el, cost = {}, {}
+    for et in ET_TAB:
+        t = net[et].loc[ROW[et]]
+        el[et] = [ri(t.min_p_mw), ri(t.max_p_mw), ri(t.min_q_mvar), ri(t.max_q_mvar), int(bool(t.controllable)),
+                  int(bool(t.in_service))]
     for et in ET:
-        if et == "dcline":
-            if len(net.dcline):
-                d = net.dcline.iloc[0]
-                el[et] = [0, ri(d.max_p_mw), ri(d.min_q_from_mvar), ri(d.max_q_to_mvar), 1]
-            else:
-                el[et] = [0, 0, 0, 0, 0]
-        else:
-            t = net[et].loc[ROW[et]]
-            el[et] = [ri(t.min_p_mw), ri(t.max_p_mw), ri(t.min_q_mvar), ri(t.max_q_mvar), int(bool(t.controllable))]
         cost[et] = {"kind": "none", "co": [0] * 6, "pts": []}
+    dcl_row = 0
     for r in net.poly_cost.itertuples():
         cost[r.et] = {"kind": "poly", "co": [ri(r.cp2_eur_per_mw2), ri(r.cp1_eur_per_mw), ri(r.cp0_eur), ri(r.cq2_eur_per_mvar2),
                                               ri(r.cq1_eur_per_mvar), ri(r.cq0_eur)], "pts": []}
+        if r.et == "dcline":
+            dcl_row = int(r.element)
     for r in net.pwl_cost.itertuples():
         cost[r.et] = {"kind": "pwl", "co": [0] * 6, "pts": [[ri(x) for x in p] for p in r.points]}
+        if r.et == "dcline":
+            dcl_row = int(r.element)
+    lines = [[int(d.from_bus), int(d.to_bus), ri(d.p_mw), ri(d.max_p_mw), ri(d.min_q_from_mvar), ri(d.max_q_to_mvar),
+              ri(d.loss_percent), ri(d.loss_mw * 1000), ri(d.vm_from_pu * 1e6), ri(d.vm_to_pu * 1e6)]
+             for d in net.dcline.itertuples()]
     ml = [ri(net.trafo.max_loading_percent.iloc[0])] + [ri(x) for x in net.line.max_loading_percent.values]
     ml += [0] * (4 - len(ml))
-    loss = [ri(net.dcline.loss_percent.iloc[0]), ri(net.dcline.loss_mw.iloc[0] * 1000)] if len(net.dcline) else [0, 0]
     return {"el": el, "cost": cost, "vband": [ri(net.bus.min_vm_pu.iloc[0] * 1e6), ri(net.bus.max_vm_pu.iloc[0] * 1e6)],
-            "maxload": ml, "loss": loss}
+            "maxload": ml, "lines": lines, "order_poly": [str(x) for x in net.poly_cost.et.values],
+            "order_pwl": [str(x) for x in net.pwl_cost.et.values], "dcl_cost_row": dcl_row,
+            "shift": ri(net.trafo.shift_degree.iloc[0]), "sn": ri(net.sn_mva)}
 
 
 # ---- observation --------------------------------------------------------------------------------------------------
-EMPTY_PF = {"conv": False, "vm": [0] * 4, "va": [0] * 4, "egp": 0, "egq": 0, "genq": 0, "loading": [0] * 4, "pto": 0}
+EMPTY_PF = {"conv": False, "vm": [0] * 4, "va": [0] * 4, "egp": 0, "egq": 0, "genq": 0, "loading": [0] * 4, "dc": []}
 
 
 def _loading(net):
@@ -143,21 +145,14 @@ def _loading(net):
 
 def project(net):
     p, q = {}, {}
-    for et in ET:
-        if et == "dcline":
-            if len(net.dcline):
-                p[et], q[et] = fx(net.res_dcline.p_from_mw.iloc[0]), fx(net.res_dcline.q_from_mvar.iloc[0])
-            else:
-                p[et], q[et] = 0, 0
-        else:
-            res = net["res_" + et]
-            p[et], q[et] = fx(res.p_mw.loc[ROW[et]]), fx(res.q_mvar.loc[ROW[et]])
-    has_dc = len(net.dcline) > 0
+    for et in ET_TAB:
+        res = net["res_" + et]
+        p[et], q[et] = fx(res.p_mw.loc[ROW[et]]), fx(res.q_mvar.loc[ROW[et]])
+    dc = [{"pf": fx(r.p_from_mw), "pt": fx(r.p_to_mw), "qf": fx(r.q_from_mvar), "qt": fx(r.q_to_mvar)}
+          for r in net.res_dcline.itertuples()]
     return {"vm": [fx(x) for x in net.res_bus.vm_pu.values], "va": [fx(x) for x in net.res_bus.va_degree.values],
             "p": p, "q": q, "basep": fx(net.res_load.p_mw.loc[0]), "baseq": fx(net.res_load.q_mvar.loc[0]),
-            "genvm": fx(net.res_gen.vm_pu.iloc[0]),
-            "pto": fx(net.res_dcline.p_to_mw.iloc[0]) if has_dc else 0,
-            "qto": fx(net.res_dcline.q_to_mvar.iloc[0]) if has_dc else 0,
+            "genvm": fx(net.res_gen.vm_pu.iloc[0]), "dc": dc,
             "loading": _loading(net), "cost": fx(net.res_cost)}
 
 
@@ -176,7 +171,9 @@ def replay_pf(net, ac):
         m.gen["vm_pu"] = net.res_gen.vm_pu.values
         m.ext_grid["vm_pu"] = net.res_bus.vm_pu.values[eb]
     if len(m.dcline):
-        m.dcline["p_mw"] = net.res_dcline.p_from_mw.values
+        # the set point of a dcline is the power of its sending end, signed with the direction (doc/elements/dcline.rst)
+        fwd = net.dcline.p_mw.values > 0
+        m.dcline["p_mw"] = [pf if f else -pt for f, pf, pt in zip(fwd, net.res_dcline.p_from_mw.values, net.res_dcline.p_to_mw.values)]
         if ac:
             m.dcline["vm_from_pu"] = net.res_dcline.vm_from_pu.values
             m.dcline["vm_to_pu"] = net.res_dcline.vm_to_pu.values
@@ -192,7 +189,8 @@ def replay_pf(net, ac):
     return {"conv": True, "vm": [fx(x) for x in m.res_bus.vm_pu.values], "va": [fx(x) for x in m.res_bus.va_degree.values],
             "egp": fx(m.res_ext_grid.p_mw.iloc[0]), "egq": fx(m.res_ext_grid.q_mvar.iloc[0]),
             "genq": fx(m.res_gen.q_mvar.iloc[0]), "loading": _loading(m),
-            "pto": fx(m.res_dcline.p_to_mw.iloc[0]) if len(m.dcline) else 0}
+            "dc": [{"pf": fx(r.p_from_mw), "pt": fx(r.p_to_mw), "qf": fx(r.q_from_mvar), "qt": fx(r.q_to_mvar)}
+                   for r in m.res_dcline.itertuples()]}
 
 
 def observe(job):
@@ -202,9 +200,11 @@ def observe(job):
     net = build_net(inst)
     rb = readback(net, inst)
     ac = bool(inst["ac"])
-    o = {"conv": False, "err": "", "vm": [0] * 4, "va": [0] * 4, "p": {e: 0 for e in ET}, "q": {e: 0 for e in ET}, "basep": 0,
-         "baseq": 0, "genvm": 0, "pto": 0, "qto": 0, "loading": [0] * 4, "cost": 0, "pf": dict(EMPTY_PF)}
+    o = {"conv": False, "err": "", "vm": [0] * 4, "va": [0] * 4, "p": {e: 0 for e in ET_TAB}, "q": {e: 0 for e in ET_TAB}, "basep": 0,
+         "baseq": 0, "genvm": 0, "dc": [], "loading": [0] * 4, "cost": 0, "pf": dict(EMPTY_PF)}
     kw = dict(TIGHT) if inst["opts"] == "tight" else {}
+    if ac:
+        kw["init"] = inst["init"]
     try:
         (pp.runopp if ac else pp.rundcopp)(net, **kw)
         conv = bool(net.OPF_converged)
@@ -265,19 +265,35 @@ def instantiate(cfgs):
     return out
 
 
+def _stratified(pool, n, rnd):
+    """n configurations of pool: two thirds by going round the strata of Opf.tla (req.stratum) taking one configuration
+    per stratum and round -- so every stratum is sampled, however small --, the rest uniformly."""
+    if len(pool) <= n:
+        return list(pool)
+    strata = {}
+    for s in pool:
+        strata.setdefault(json.dumps(s["req"]["stratum"], sort_keys=True), []).append(s)
+    for k in strata:
+        rnd.shuffle(strata[k])
+    out, quota = [], (2 * n) // 3
+    keys = sorted(strata)
+    while len(out) < quota and any(strata[k] for k in keys):
+        for k in keys:
+            if strata[k] and len(out) < quota:
+                out.append(strata[k].pop())
+    rest = [s for k in keys for s in strata[k]]
+    return out + rnd.sample(rest, min(n - len(out), len(rest)))
+
+
 def select(states, tier, seed, n_ac, n_dc):
-    """All configurations in the thorough tier; a seeded sample (stratified by AC / DC) in the quick tier."""
+    """All configurations in the thorough tier; a seeded sample (by AC / DC, stratified by req.stratum) in the quick tier."""
     rnd = random.Random(seed)
     ac = [s for s in states if s["cfg"]["ac"]]
     dc = [s for s in states if not s["cfg"]["ac"]]
     key = lambda s: json.dumps(s["cfg"], sort_keys=True)
     ac.sort(key=key)
     dc.sort(key=key)
-    if len(ac) > n_ac:
-        ac = rnd.sample(ac, n_ac)
-    if len(dc) > n_dc:
-        dc = rnd.sample(dc, n_dc)
-    return ac + dc
+    return _stratified(ac, n_ac, rnd) + _stratified(dc, n_dc, rnd)
 
 
 def sample_sizes(tier, quick):
@@ -291,11 +307,14 @@ def sample_sizes(tier, quick):
 def at_limit(c, tol=1000):
     """coverage only: is some declared inequality limit active in this converged case?"""
     inst, o = c["inst"], c["o"]
-    for et in ET:
+    for et in ET_TAB:
         e = inst["el"][et]
-        if e["present"] and (et in ("ext_grid", "dcline") or e["ctrl"]):
+        if e["present"] and (et == "ext_grid" or e["ctrl"]):
             if min(abs(o["p"][et] - e["pmin"] * 10 ** 6), abs(o["p"][et] - e["pmax"] * 10 ** 6)) <= tol:
                 return True
+    for ln, d in zip(inst["lines"], o["dc"]):
+        if min(abs(d["pf"]), abs(abs(d["pf"]) - ln["pmax"] * 10 ** 6)) <= tol:
+            return True
     if inst["ac"] and any(min(abs(x - inst["vmin"]), abs(x - inst["vmax"])) <= tol for x in o["vm"]):
         return True
     ml = [inst["maxload"][b] for b in ("T", "A", "B", "C")]
@@ -314,17 +333,28 @@ def run_cases(v, states, tier, seed, replay):
     return cases
 
 
+def focus_counts(cases):
+    out = {}
+    for c in cases:
+        for f in c["req"].get("focus", []):
+            out[f] = out.get(f, 0) + 1
+    return dict(sorted(out.items()))
+
+
 def obs_cases(cases):
     return [{"cfg": c["cfg"], "o": c["o"], "rb": c["rb"]} for c in cases]
 
 
 def feature(c):
     cfg = c["cfg"]
-    return "%s|dcline=%s" % ("ac" if cfg["ac"] else "dc", {0: "none", 1: "lossless", 2: "lossy"}[cfg["dcl"]])
+    dcl = "none" if cfg["dcl"] == "none" else "lossy" if any(ch in "FR" for ch in cfg["dcl"]) else "lossless"
+    return "%s|dcline=%s" % ("ac" if cfg["ac"] else "dc", dcl)
 
 
 QUICK = {}
-THOROUGH = {"QlimSet": '{"loose", "tight"}', "VarSet": "{1, 2}", "Profiles": '{"lin", "quad", "pwl"}', "GridModelMax": "1000",
+THOROUGH = {"QlimSet": '{"loose", "tight"}', "VarSet": "{1, 2, 3}", "Profiles": '{"lin", "quad", "pwl"}', "GridModelMax": "1000",
+            "DclSet": '{"none", "f", "F", "r", "R", "fr", "rf", "ff", "frf"}', "ShiftSet": "{0, 30, 150, 330}",
+            "GhostSet": '{"none", "sgen", "load", "storage"}',
             "CtrlSets": '{{}, {"gen"}, {"sgen"}, {"load"}, {"storage"}, {"gen", "storage"}, {"sgen", "load"}, '
                         '{"gen", "sgen", "load", "storage"}}'}
 
@@ -336,12 +366,13 @@ def run(tier, seed, replay=None):
     if replay:
         states = [{"cfg": replay["case"]["cfg"], "req": replay["case"]["req"]}]
         mstates = mtrans = 0
-        n_model = 1
+        n_model = n_strata = 1
     else:
         states, r = enumerate_model("Opf.cfg", QUICK if tier == "quick" else THOROUGH)
         for name, st, raw in r.violations:
             v.divergence("model-level: %s" % name, None)
         mstates, mtrans, n_model = r.distinct, r.generated, len(states)
+        n_strata = len({json.dumps(s["req"]["stratum"], sort_keys=True) for s in states})
         states = select(states, tier, seed, *sample_sizes(tier, (300, 150)))
     t1 = time.time()
     cases = run_cases(v, states, tier, seed, replay)
@@ -368,11 +399,17 @@ def run(tier, seed, replay=None):
         "model_configurations": n_model, "converged": len(conv), "not_converged": len(cases) - len(conv),
         "converged_ac": sum(1 for c in conv if c["cfg"]["ac"]), "converged_dc": sum(1 for c in conv if not c["cfg"]["ac"]),
         "with_noncontrollable_element": sum(1 for c in conv if not all(c["cfg"]["ctrl"].values())),
-        "with_dcline": sum(1 for c in conv if c["cfg"]["dcl"]), "tight_options": sum(1 for c in conv if c["cfg"]["opts"] == "tight"),
+        "with_dcline": sum(1 for c in conv if c["cfg"]["dcl"] != "none"), "tight_options": sum(1 for c in conv if c["cfg"]["opts"] == "tight"),
+        "converged_by_focus": focus_counts(conv), "strata_in_model": n_strata,
+        "strata_sampled": len({json.dumps(c["req"]["stratum"], sort_keys=True) for c in cases}),
+        "trafo_rating_active_lv_to_hv": sum(1 for c in conv if abs(c["o"]["loading"][0] - c["inst"]["maxload"]["T"] * 10 ** 6) <= 10 ** 5
+                                            and c["o"]["p"]["ext_grid"] < 0),
         "wall_model_s": round(t1 - t0, 1), "wall_impl_s": round(t2 - t1, 1),
         "rule": "configurations of Opf.tla (slice feas: controllable sets x ext_grid controllable x AC/DC x solver options x mesh x "
-                "dcline none/lossless/lossy x voltage band x p/q limit level x branch rating level x cost profile x variant); "
-                "quick: seeded sample, thorough: all DC configurations and a seeded sample of 4000 AC ones; each run through runopp/rundcopp and replayed as runpp/rundcpp; "
+                "voltage band x p/q limit level x branch rating level (all / only the transformer tight) x cost profile x variant x "
+                "dclines none / one / several, forward / reverse, lossless / lossy x transformer phase shift x net.sn_mva x ghost "
+                "(out-of-service storage with a cost row); at most MaxDev of the last four leave the plain template at a time); "
+                "quick: seeded sample covering every stratum (req.stratum), thorough: all DC configurations and a seeded sample of 4000 AC ones; each run through runopp/rundcopp and replayed as runpp/rundcpp; "
                 "non-trivial = converged and at least one declared limit (p of a controllable element, bus voltage, branch "
                 "loading) active within 1e-3",
         "samples": [{"cfg": c["cfg"], "o": {k: c["o"][k] for k in ("conv", "vm", "p", "loading", "cost")}}
@@ -381,7 +418,9 @@ def run(tier, seed, replay=None):
     v.assumptions = [
         "one template (4 buses, trafo + 2-3 lines, one element of each kind); integer MW limits and set points",
         "dcline reactive limits symmetric and equal at both ends (sign convention of min/max_q_from/to_mvar not documented)",
-        "scaling = 1, all elements in service; gen without own min_vm_pu / max_vm_pu columns",
+        "scaling = 1; all elements in service except the ghost (sgen / load / storage), no out-of-service dcline (the OPF "
+        "raises with one); gen without own min_vm_pu / max_vm_pu columns",
+        "the direction of a dcline is the sign of its set point p_mw and is kept by the OPF (auxiliary.py:1588-1597)",
         "non-converged OPF runs satisfy the property vacuously and are counted (coverage.not_converged)",
         "tolerances: 2e-4 (default options) / 5e-6 (tightened options) on limits, see OpfObs.tla",
     ]
